@@ -272,10 +272,10 @@ accumulated left to right from zero (`Iterator::sum`) -/
 def quadSum (nodes : List (α × α)) (f : α → Cx α) : Cx α :=
   Cx.sum (nodes.map fun p => Cx.muls (f p.1) p.2)
 
-/-- `Σ |f(xₖ)|·wₖ` — the absolute sum behind `quadSum` (the forward-error scale of the oscillatory
-sum; used by the correspondence comparison only) -/
+/-- `Σ (|Re f(xₖ)| + |Im f(xₖ)|)·wₖ` — the absolute sum behind `quadSum` (the forward-error scale
+of the oscillatory sum; used by the correspondence comparison only; the 1-norm cannot underflow) -/
 def quadAbsSum (nodes : List (α × α)) (f : α → Cx α) : α :=
-  sumList (nodes.map fun p => (f p.1).abs * p.2)
+  sumList (nodes.map fun p => (Transc.abs (f p.1).re + Transc.abs (f p.1).im) * p.2)
 
 /-- `phasematch_fiber_coupling` for a rule given by nodes and weights and a final scale
 (`result * (dx/3)` for Simpson): `0.5 * integrate(fn_z, -1, 1)` -/
